@@ -79,23 +79,24 @@ func (r simpleQueryRule) step(tc *traceClient, x *core.TSCtx, site ssa.Instructi
 	return bad("unexpected event in a simple Query cycle")
 }
 
-func (r simpleQueryRule) ret(tc *traceClient, x *core.TSCtx, ret *ssa.Return, q string, err core.ErrK) {
+func (r simpleQueryRule) ret(tc *traceClient, x *core.TSCtx, ret *ssa.Return, q string, err core.ErrK) string {
 	if len(x.Stack) != 0 {
-		return
+		return q
 	}
 	key := "handleSimpleQuery:return:" + retDescr(ret) + "@" + q
 	if q == "done" {
-		return
+		return q
 	}
 	if err == core.KNonNil {
 		org := r.c.errOrigins(errOperand(ret))
 		if onlyConnectionEnding(org) {
-			return
+			return q
 		}
 		tc.fail("C05.R1", x, ret, key, "an error that does not end the connection is reported with ErrorResponse + ReadyForQuery", "returns a non-nil error of origin {"+originList(org)+"} without having completed the cycle: the client gets no ErrorResponse/ReadyForQuery and the connection is dropped")
-		return
+		return q
 	}
 	tc.fail("C05.R1", x, ret, key, "every path of a simple Query that keeps the connection ends with exactly one ReadyForQuery", "returns (error may be nil) in automaton state '"+q+"': the cycle is not closed by ReadyForQuery")
+	return q
 }
 
 // ---- R2: what handler-visible API can emit
@@ -114,7 +115,9 @@ func (r *emitSetRule) step(tc *traceClient, x *core.TSCtx, site ssa.Instruction,
 	}
 	return q
 }
-func (r *emitSetRule) ret(*traceClient, *core.TSCtx, *ssa.Return, string, core.ErrK) {}
+func (r *emitSetRule) ret(_ *traceClient, _ *core.TSCtx, _ *ssa.Return, q string, _ core.ErrK) string {
+	return q
+}
 
 func runC05(c *Ctx) {
 	R := c.R
@@ -131,7 +134,7 @@ func runC05(c *Ctx) {
 		tc := newTraceClient(c, simpleQueryRule{c})
 		ts := core.NewTS(c.P, tc)
 		ts.Relevant = c.reachesEvents()
-		outs := ts.Run(hsq, joinState("", "start"), nil)
+		outs := ts.Run(hsq, joinState("", "start"), core.TSEnv{})
 		for f := range ts.Funcs {
 			R.Analysed(fname(f))
 		}
@@ -220,7 +223,7 @@ func (c *Ctx) handlerEmitSet(rule string) {
 		tc := newTraceClient(c, er)
 		ts := core.NewTS(c.P, tc)
 		ts.Relevant = c.reachesEvents()
-		ts.Run(fn, joinState("", ""), nil)
+		ts.Run(fn, joinState("", ""), core.TSEnv{})
 		R.Analysed(fname(fn))
 		var got []string
 		ok := true
